@@ -72,14 +72,15 @@ class NtTriplesYielder(BaseTriplesYielder):
         return index_sub + (len(target_str) - len(target_substring))
 
     def _look_for_last_index_of_bnode_token(self, target_str, first_index):
-        target_substring = target_str[first_index:]
-        index_sub = target_substring.find(" ")
-        return index_sub + (len(target_str) - len(target_substring)) - 1
+        index_of_blank = target_str.find(" ", first_index)
+        last_index = (index_of_blank if index_of_blank != -1 else len(target_str)) - 1
+        if target_str[last_index] == ".":  # A label can't end with a dot: it is the end of the statement (no blank before it)
+            last_index -= 1
+        return last_index
 
     def _look_for_last_index_of_unlabelled_number_token(self, target_str, first_index):
-        target_substring = target_str[first_index:]
-        index_sub = target_substring.find(" ")
-        return index_sub + (len(target_str) - len(target_substring)) - 1
+        index_of_blank = target_str.find(" ", first_index)
+        return (index_of_blank if index_of_blank != -1 else len(target_str)) - 1
 
     def _look_for_last_index_of_literal_token(self, target_str, first_index):
         index_of_closing_quotes = self._look_for_index_of_closing_quotes(target_str, first_index)
